@@ -962,6 +962,48 @@ func (c *Ctx) valueIte(cond *Term, a, b Value) Value {
 		if x.Dyn != nil && y.Dyn != nil && types.Identical(x.Dyn, y.Dyn) {
 			return IfaceV{Dyn: x.Dyn, Val: c.valueIte(cond, x.Val, y.Val), Iface: x.Iface}
 		}
+	case *MapObj:
+		if y, ok := b.(*MapObj); ok {
+			if x == y {
+				return x
+			}
+			// two different contents of the same map object on the two branches: the merged content is unknown
+			// (an over-approximation: reads from it are arbitrary)
+			c.Assumed["maps whose content differs at a control-flow join are merged into an unknown map (over-approximation)"] = true
+			return &MapObj{Abstract: true, Tag: c.freshName("merged.map")}
+		}
+	case MapV:
+		if y, ok := b.(MapV); ok {
+			if x.Nil == y.Nil && x.Obj == y.Obj {
+				return x
+			}
+			if !x.Nil && !y.Nil && x.Typ != nil {
+				c.Assumed["maps whose content differs at a control-flow join are merged into an unknown map (over-approximation)"] = true
+				o := c.newObject("merged.map", x.Typ)
+				c.initVals[o] = &MapObj{Abstract: true, Tag: c.freshName("merged.map")}
+				return MapV{Obj: o, Typ: x.Typ}
+			}
+		}
+	case ChanV:
+		if y, ok := b.(ChanV); ok {
+			if x.Nil && y.Nil || (x.Obj != nil && x.Obj == y.Obj) || (x.Sym != nil && x.Sym == y.Sym) {
+				return x
+			}
+			if (x.Sym != nil || x.Nil) && (y.Sym != nil || y.Nil) {
+				xs, ys := x.Sym, y.Sym
+				if x.Nil {
+					xs = IntC(0)
+				}
+				if y.Nil {
+					ys = IntC(0)
+				}
+				return ChanV{Sym: Ite(cond, xs, ys)}
+			}
+		}
+	case FuncV:
+		if y, ok := b.(FuncV); ok && x.Fn == y.Fn && x.Builtin == y.Builtin && x.Nil == y.Nil && x.Sym == y.Sym && len(x.Bindings) == 0 && len(y.Bindings) == 0 {
+			return x
+		}
 	case nil:
 		if b == nil {
 			return nil
